@@ -46,6 +46,6 @@ seeded_md = "\n".join(rows)
 p = os.path.join(HERE, "DESIGN.md")
 s = open(p).read()
 for name, md in (("fixes", fixes_md), ("open", open_md), ("seeded", seeded_md)):
-    s = re.sub(rf"<!-- BEGIN:{name} -->.*?<!-- END:{name} -->", f"<!-- BEGIN:{name} -->\n{md}\n<!-- END:{name} -->", s, flags=re.S)
+    s = re.sub(rf"<!-- BEGIN:{name} -->.*?<!-- END:{name} -->", lambda _m, name=name, md=md: f"<!-- BEGIN:{name} -->\n{md}\n<!-- END:{name} -->", s, flags=re.S)
 open(p, "w").write(s)
 print("tables regenerated:", len(order), "fix commits,", sum(1 for e in kf if e['status']=='open'), "open findings")
